@@ -376,6 +376,9 @@ func (p *Program) Source() string {
 	for _, t := range p.Types {
 		b.WriteString(TypeDecl(t))
 	}
+	for _, gl := range p.Globals {
+		gl.stmt(&b, 0)
+	}
 	b.WriteString("\n")
 	for _, f := range p.Funcs {
 		b.WriteString(f.Source())
